@@ -127,7 +127,8 @@ class IdentityCMap(CMapBase):
     def decode(self, code: bytes) -> Tuple[int, ...]:
         n = len(code) // 2
         if n:
-            return struct.unpack(">%dH" % n, code)
+            # an odd trailing byte cannot form a two-byte code and is ignored
+            return struct.unpack(">%dH" % n, code[: 2 * n])
         else:
             return ()
 
